@@ -51,7 +51,10 @@ def USend.WF : USend → Prop
   | .send path prio ticks req route =>
     EpathWF path ∧ prio < 256 ∧ ticks < 256 ∧ req.length < 65536 ∧ EpathWF route
   | .error st => st.code < 16 ∧ st.code ≠ 0 ∧ st.ext = []
-  | .other req => ∃ b rest, req = b :: rest ∧ b ≠ 0x52 ∧ b ≠ 0xD2
+  | .other req => ∃ b rest, req = b :: rest ∧ b ≠ 0x52 ∧
+      -- a payload starting with the wrapper's own reply code 0xD2 is passed through unless it could be the wrapper's
+      -- error reply: at most 6 bytes, status < 0x10, no extended status (the ambiguity documented in the code)
+      (b = 0xD2 → ∀ pad sts ext r, rest = pad :: sts :: ext :: r → ¬ (r.length + 4 ≤ 6 ∧ sts < 0x10 ∧ ext = 0))
 
 theorem decodeUSend_encode (u : USend) (h : u.WF) : decodeUSend (encodeUSend u) = some u := by
   cases u with
@@ -82,7 +85,11 @@ theorem decodeUSend_encode (u : USend) (h : u.WF) : decodeUSend (encodeUSend u) 
     unfold decodeUSend
     split
     · rename_i heq; simp only [List.cons.injEq] at heq; exact absurd heq.1 h1
-    · rename_i heq; simp only [List.cons.injEq] at heq; exact absurd heq.1 h2
+    · rename_i pad sts ext r heq
+      simp only [List.cons.injEq] at heq
+      have := h2 heq.1 pad sts ext r heq.2
+      rw [if_neg (by simpa [← heq.1, heq.2] using this)]
+      simp
     · simp
 
 theorem encodeUSend_ne_nil (u : USend) (h : u.WF) : encodeUSend u ≠ [] := by
